@@ -403,14 +403,40 @@ func mutateEncoding(t *rapid.T, b []byte) ([]byte, string) {
 			out = refwire.AppendVarint(out, nl)
 			return append(out, b[f.PayloadStart:]...), "inflate-length"
 		}
-	case 3: // change the wire type of one key
+	case 3: // change the wire type of one key - at the top level or inside a nested payload (map entry, child message)
 		fs, err := refwire.Walk(b)
 		if err == nil && len(fs) > 0 {
+			base := 0
+			for depth := 0; depth < 3; depth++ {
+				// descend into a length-delimited payload that parses as a field sequence
+				var inner []refwire.Field
+				for _, f := range fs {
+					if f.WT == refwire.WTLen && f.End > f.PayloadStart {
+						if sub, err := refwire.Walk(b[base+f.PayloadStart : base+f.End]); err == nil && len(sub) > 0 {
+							inner = append(inner, f)
+						}
+					}
+				}
+				if len(inner) == 0 || rapid.IntRange(0, 2).Draw(t, "descend") == 0 {
+					break
+				}
+				f := rapid.SampledFrom(inner).Draw(t, "into")
+				fs, _ = refwire.Walk(b[base+f.PayloadStart : base+f.End])
+				base += f.PayloadStart
+			}
 			f := rapid.SampledFrom(fs).Draw(t, "wtfield")
 			nwt := rapid.SampledFrom([]int{0, 1, 2, 5, 3, 4}).Draw(t, "nwt")
-			out := append([]byte{}, b[:f.KeyStart]...)
-			out = refwire.AppendKey(out, f.Num, nwt)
-			return append(out, b[f.ValStart:]...), "rewire-type"
+			key := refwire.AppendKey(nil, f.Num, nwt)
+			if base > 0 && len(key) != f.ValStart-f.KeyStart {
+				return b, "none" // (a nested key of another size would need the enclosing lengths re-written)
+			}
+			out := append([]byte{}, b[:base+f.KeyStart]...)
+			out = append(out, key...)
+			note := "rewire-type"
+			if base > 0 {
+				note = "rewire-type-nested"
+			}
+			return append(out, b[base+f.ValStart:]...), note
 		}
 	case 4:
 		return append(b, rapid.SliceOfN(rapid.Byte(), 1, 8).Draw(t, "tail")...), "append-garbage"
@@ -560,7 +586,7 @@ func TestC07(t *testing.T) {
 }
 
 func TestC08(t *testing.T) {
-	rec := ev.New("C08", ruleValues+"valid encodings are mutated (truncate at an offset, overwrite a byte with {00,7f,80,ff,b^1,b^2,b^4,b^80}, inflate a length prefix to {remaining+1, 2^31-1, 2^31, 2^32, 2^40, 2^63, 2^64-1}, change a key's wire type incl. groups, append garbage, hostile length for an existing number, plain random bytes); the quick tier also truncates at every offset and overwrites every byte of the sweep encodings of each type; oracle: returns (no panic), bytes allocated <= 4 KiB + len*(576+2*S), and when both decoders accept the messages are equal; non-trivial = the input is not a valid canonical encoding; distinct by (type, bytes)")
+	rec := ev.New("C08", ruleValues+"valid encodings are mutated (truncate at an offset, overwrite a byte with {00,7f,80,ff,b^1,b^2,b^4,b^80}, inflate a length prefix to {remaining+1, 2^31-1, 2^31, 2^32, 2^40, 2^63, 2^64-1}, change a key's wire type incl. groups at the top level or inside a nested payload / map entry, append garbage, hostile length for an existing number, plain random bytes); the quick tier also truncates at every offset and overwrites every byte of the sweep encodings of each type; oracle: returns (no panic), bytes allocated <= 4 KiB + len*(576+2*S), and when both decoders accept the messages are equal; non-trivial = the input is not a valid canonical encoding; distinct by (type, bytes)")
 	defer rec.Write()
 	useRecorder(rec)
 	defer func() { t.Log(rec.Summary()); fmt.Print(rec.SurveyReport()) }()
